@@ -196,3 +196,15 @@ v("c16-leaf-none-accepted", "C16", "NULL-REJECT", "src/graphql/execution/executo
 v("c16-serialize-int-bool-order", "C16", "BOOL-EXCLUSION", T + "scalars.py",
   "def serialize_int(output_value: Any) -> int:\n    if isinstance(output_value, bool):\n        return 1 if output_value else 0\n    if isinstance(output_value, (int, float)):",
   "def serialize_int(output_value: Any) -> int:\n    if isinstance(output_value, (int, float)):")
+
+# -- C20 ----------------------------------------------------------------------------------------
+v("c20-unfix-default-on-non-input", "C20", "KIND-CONTRADICTION", T + "validate.py",
+  "        if not default_input or not is_input_type(input_value.type):\n            return", "        if not default_input:\n            return")
+v("c20-uncoerce-outside-try", "C20", "VALIDATE-RAISES", T + "validate.py",
+  "            try:\n                uncoerced_value = uncoerce_default_value(\n                    default_input.value, input_value.type\n                )\n",
+  "            uncoerced_value = uncoerce_default_value(\n                default_input.value, input_value.type\n            )\n            try:\n")
+v("c20-schema-errors-after-parse", "C20", "SCHEMA-ERRORS-FIRST", "src/graphql/graphql.py",
+  "    if schema_validation_errors := validate_schema(schema):\n        return ExecutionResult(data=None, errors=schema_validation_errors)\n",
+  "    if assume_valid_schema := False:\n        return ExecutionResult(data=None, errors=[])\n")
+v("c20-validate-types-no-enum", "C20", "DISPATCH-EXH", T + "validate.py",
+  "            elif is_enum_type(type_):\n                # Ensure Enums have valid values.\n                self.validate_enum_values(type_)\n", "")
